@@ -1,13 +1,36 @@
-# collects the per-property configuration from lib/propdefs/C??.py (each defines P = {...})
-import os, glob, importlib.util
+# collects the per-property configuration from lib/propdefs/C??.py (each defines P = {...}) and the
+# optional part files lib/propdefs/C??_<area>.py (same keys; lists are appended, the rule text is joined)
+import os, glob, importlib.util, re
 
 PROPS = {}
 _d = os.path.join(os.path.dirname(os.path.abspath(__file__)), "propdefs")
+
+
+def _load(f):
+    spec = importlib.util.spec_from_file_location("propdef_" + os.path.basename(f)[:-3], f)
+    m = importlib.util.module_from_spec(spec)
+    spec.loader.exec_module(m)
+    return m.P
+
+
 for _f in sorted(glob.glob(os.path.join(_d, "C*.py"))):
-    _spec = importlib.util.spec_from_file_location("propdef_" + os.path.basename(_f)[:-3], _f)
-    _m = importlib.util.module_from_spec(_spec)
-    _spec.loader.exec_module(_m)
-    PROPS[os.path.basename(_f)[:-3]] = _m.P
+    _n = os.path.basename(_f)[:-3]
+    if re.fullmatch(r"C\d+", _n):
+        PROPS[_n] = dict(_load(_f))
+for _f in sorted(glob.glob(os.path.join(_d, "C*_*.py"))):
+    _n = os.path.basename(_f)[:-3]
+    _pid = _n.split("_")[0]
+    if _pid not in PROPS:
+        continue
+    _part = _load(_f)
+    _P = PROPS[_pid]
+    for _k in ("gens", "theorems", "assumptions", "trusted_base"):
+        _P[_k] = list(_P.get(_k, [])) + [x for x in _part.get(_k, []) if x not in _P.get(_k, [])]
+    if _part.get("rule"):
+        _P["rule"] = _P.get("rule", "") + " || " + _n + ": " + _part["rule"]
+    for _k in ("timeout_quick", "timeout_thorough"):
+        if _k in _part:
+            _P[_k] = max(_P.get(_k, 0), _part[_k])
 
 ALL = ["C%02d" % i for i in range(1, 21)]
 # properties not (yet) claimed, with the reason (kept current; see DESIGN.md)
